@@ -34,3 +34,17 @@ Print Assumptions C07_oversized_promise_refused.
 Theorem C07_prover_offsets_by_promise : forall v p, offset_value v (Some p) = (v - p)%N.
 Proof. reflexivity. Qed.
 Print Assumptions C07_prover_offsets_by_promise.
+
+(** a promise enters the algebraic check only through V_j - p_j H: raising promise and committed value by the
+    same d is invisible to the textbook point P_0 (the transcript is what tells the statements apart) *)
+From BP Require Import Base.Field Model.Spec Model.RangeSpec Proofs.PromiseP.
+Theorem C07_promise_is_commitment_shift : forall (K : Fld), FldOk K -> forall (M : Mod K), ModOk K M -> forall (H V : M) (p d : N),
+  shifted K M H (vadd M V (smul M (fofN K d) H)) (Some (p + d)%N) = shifted K M H V (Some p).
+Proof. exact shifted_joint_shift. Qed.
+Print Assumptions C07_promise_is_commitment_shift.
+Theorem C07_P0_depends_on_shifted_commitments : forall (K : Fld) (M : Mod K) bits (H : M) (G Hs Vs Vs' : list M) (promises promises' : list (option N)) (A : M) (y z : K),
+  length promises = length promises' ->
+  map2 (shifted K M H) Vs promises = map2 (shifted K M H) Vs' promises' ->
+  P0 K M bits H G Hs Vs promises A y z = P0 K M bits H G Hs Vs' promises' A y z.
+Proof. exact P0_depends_on_shifted_commitments. Qed.
+Print Assumptions C07_P0_depends_on_shifted_commitments.
